@@ -3,6 +3,7 @@ package main
 import (
 	"fmt"
 	"go/token"
+	"strings"
 	"go/types"
 
 	"golang.org/x/tools/go/ssa"
@@ -265,6 +266,81 @@ func ruleFreshLiteralsAndStores(c *Ctx, u *Universe) {
 		R.check(okAll && n >= 4, "C07.fresh", "pkg/exec.evalPrimeExpr", u.pos(f.Pos()), "literals evaluate to freshly allocated values (or a variable lookup)", "a literal can evaluate to a cached / shared value")
 	} else {
 		R.lost("C07.fresh", "pkg/exec.evalPrimeExpr")
+	}
+
+	// ---- C07.ctor: the constructors of mutable values allocate: every value they return is allocated in that very call
+	// (numbers are mutable in place through 自增 / 自减, so handing out a shared pre-built number couples variables)
+	for _, name := range []string{"NewNumber", "NewString", "NewArray", "NewHashMap", "NewEmptyHashMap", "NewObject"} {
+		f := u.ssaFunc("pkg/value", name)
+		if f == nil {
+			R.lost("C07.ctor", "pkg/value."+name)
+			continue
+		}
+		okNew, nRet := true, 0
+		for _, b := range f.Blocks {
+			ret, isRet := b.Instrs[len(b.Instrs)-1].(*ssa.Return)
+			if !isRet {
+				continue
+			}
+			for _, src := range allSources(retValue(ret, 0)) {
+				nRet++
+				switch x := src.(type) {
+				case *ssa.Alloc:
+					if !x.Heap {
+						okNew = false
+					}
+				case *ssa.Call:
+					// another constructor of the same package
+					if callee := x.Call.StaticCallee(); callee == nil || callee.Pkg != f.Pkg || !strings.HasPrefix(callee.Name(), "New") {
+						okNew = false
+					}
+				default:
+					okNew = false
+				}
+			}
+		}
+		R.check(okNew && nRet >= 1, "C07.ctor", "pkg/value."+name, u.pos(f.Pos()), "returns a value allocated by this call", "the constructor can return a value that was not allocated by this call (a shared, pre-built or cached object): mutable values become aliases of each other")
+	}
+	R.min("C07.ctor", 6)
+
+	// ---- C07.adopt: a list / dictionary never takes over the backing store of another one (both would change together)
+	nStoreBS := 0
+	for _, rel := range []string{"pkg/value", "pkg/exec", "pkg/common"} {
+		for _, f := range u.srcFuncs(rel) {
+			for _, in := range instrsOf(f) {
+				st, ok := in.(*ssa.Store)
+				if !ok {
+					continue
+				}
+				fa, ok := st.Addr.(*ssa.FieldAddr)
+				if !ok {
+					continue
+				}
+				fld := fieldAddrName(fa)
+				if fld != "Array.value" && fld != "HashMap.value" && fld != "HashMap.keyOrder" {
+					continue
+				}
+				nStoreBS++
+				bad := ""
+				for _, src := range allSources(st.Val) {
+					v := src
+					if sl, isSl := v.(*ssa.Slice); isSl {
+						v = sl.X
+					}
+					if un, isUn := v.(*ssa.UnOp); isUn && un.Op == token.MUL {
+						if fa2, isFA := un.X.(*ssa.FieldAddr); isFA && fieldAddrName(fa2) == fld && fa2.X != fa.X {
+							bad = u.pos(st.Pos())
+						}
+					}
+				}
+				if bad != "" {
+					R.viol("C07.adopt", u.fname(f)+":"+fld, bad, "the backing store of another list / dictionary is stored into this one without copying: the two values alias each other")
+				}
+			}
+		}
+	}
+	if nStoreBS > 0 {
+		R.hold("C07.adopt", "backing-store-assignments", "", fmt.Sprintf("%d assignments of Array.value / HashMap.value / HashMap.keyOrder examined: none adopts another object's store", nStoreBS))
 	}
 
 	// ---- C07.store
